@@ -78,6 +78,19 @@ def inputs():
                                                                                           "include_comments": "stable"})),
         ("plugins_by_module_schema", "graphqlschema", dict(schema=split_schema, queries=None,
                                                             options={"target_file_path": "out_schema.graphql", "plugins": ["harness.verif_plugins_pkg"]})),
+        # generated code that imports the generated package ITSELF by absolute name (a scalar typed gclient.custom_scalars.Code):
+        # import sorting decides first-party / third-party by looking at the working directory, which differs between a
+        # fresh generation and a regeneration unless every module is rendered after the package directory exists
+        ("self_import_scalar", "client", dict(schema="scalar Code\ntype Item { id: ID! itemCode: Code }\ntype Query { item: Item }\n",
+                                              queries="query GetItem { item { id itemCode } }\nfragment ItemBits on Item { itemCode }\nquery GetBits { item { ...ItemBits } }\n",
+                                              options={"files_to_include": ["custom_scalars.py"], "include_comments": "stable"},
+                                              scalars={"Code": {"type": "gclient.custom_scalars.Code"}},
+                                              files={"custom_scalars.py": "class Code(str):\n    pass\n"})),
+        ("self_import_scalar_in_input", "client", dict(schema="scalar Code\ninput Flt { code: Code }\ntype Item { id: ID! itemCode: Code }\ntype Query { item(f: Flt): Item }\n",
+                                                       queries="query GetItem($f: Flt) { item(f: $f) { id itemCode } }\n",
+                                                       options={"files_to_include": ["custom_scalars.py"], "include_comments": "stable"},
+                                                       scalars={"Code": {"type": "gclient.custom_scalars.Code"}},
+                                                       files={"custom_scalars.py": "class Code(str):\n    pass\n"})),
         ("custom_ops", "client", dict(schema=BUILDER_SCHEMA, queries="query One { version }\n", options={"enable_custom_operations": True})),
         ("schema_strategy", "graphqlschema", dict(schema=gamma.SDL, queries=None, options={"target_file_path": "out_schema.py"})),
         ("schema_strategy_sdl", "graphqlschema", dict(schema=split_schema, queries=None, options={"target_file_path": "out_schema.graphql"})),
@@ -143,6 +156,12 @@ def make(job, spec, order, strategy):
         opts.setdefault("include_comments", "stable")
     for k, v in opts.items():
         cfg.append(f"{k} = {toml_val(v)}")
+    for sname, sdata in (kw.get("scalars") or {}).items():
+        cfg.append(f"\n[tool.ariadne-codegen.scalars.{sname}]")
+        for k, v in sdata.items():
+            cfg.append(f"{k} = {toml_val(v)}")
+    for rel, txt in (kw.get("files") or {}).items():
+        (job / rel).write_text(txt)
     (job / "pyproject.toml").write_text("\n".join(cfg) + "\n")
     return opts
 
